@@ -624,7 +624,7 @@ fn exec_owned(t: &Trace, out: &mut Outcome) {
     let fault_mode = t.alloc_fail_at.is_some() && !MIRI;
     let mut remaining: i64 = t.alloc_fail_at.map(|k| k as i64).unwrap_or(-1);
     if fault_mode {
-        crate::faultalloc::track(true);
+        simcore::faultalloc::track(true);
     }
     let p: *mut DiplomatWrite = diplomat_runtime::diplomat_buffer_write_create(t.cap);
     let m = p as *mut Mirror;
@@ -641,15 +641,15 @@ fn exec_owned(t: &Trace, out: &mut Outcome) {
                 opcode = if matches!(op, Op::Char(_)) { 2 } else { 1 };
                 note_chunk(&mut out.stats, &c, model.bytes.len(), model.cap);
                 let cap_before = unsafe { (*m).cap };
-                let fired_before = crate::faultalloc::fired();
+                let fired_before = simcore::faultalloc::fired();
                 if fault_mode && remaining >= 0 {
-                    crate::faultalloc::arm(remaining);
+                    simcore::faultalloc::arm(remaining);
                 }
                 let res = do_write(unsafe { &mut *p }, op);
                 if fault_mode {
-                    remaining = crate::faultalloc::disarm();
+                    remaining = simcore::faultalloc::disarm();
                 }
-                let fault_fired = crate::faultalloc::fired() != fired_before;
+                let fault_fired = simcore::faultalloc::fired() != fired_before;
                 let _ = write!(out.log, "{} w{} ", step, c.len());
                 if fault_fired {
                     // the allocation failed and the process is still alive: the writer chose to
@@ -724,8 +724,8 @@ fn exec_owned(t: &Trace, out: &mut Outcome) {
     out.violation = viol;
     unsafe { diplomat_runtime::diplomat_buffer_write_destroy(p) };
     if fault_mode {
-        crate::faultalloc::track(false);
-        let df = crate::faultalloc::double_frees();
+        simcore::faultalloc::track(false);
+        let df = simcore::faultalloc::double_frees();
         out.stats.double_frees = df as u64;
         if df > 0 && out.violation.is_none() {
             out.violation = Some(Violation { oracle: "O4-double-free", step: t.ops.len(), detail: format!("{} block(s) of the Rust-owned writer were released twice (create / failed growth / destroy)", df) });
